@@ -71,6 +71,33 @@ def make_overlay(pkg_rel, workdir):
         rel = os.path.relpath(f, HARNESS_DIR)
         if os.path.dirname(rel) != pkg_rel and not f.endswith("_test.go"):
             repl[os.path.join(REPO, rel)] = f
+    # source-level stub injection for native runs (//verif:stub directives)
+    specs = []
+    for f in harness_files(pkg_rel):
+        src = open(f).read()
+        for m in re.finditer(r"((?:^//verif:stub [^\n]+\n)+)(?:^//[^\n]*\n)*^func (Verif\w+)\(\)", src, re.M):
+            for line in m.group(1).strip().splitlines():
+                spec = line[len("//verif:stub "):].replace(" ", "")
+                full, stub = spec.split("=", 1)
+                # full: import/path.Func or (*import/path.T).Method
+                mm = re.match(r"^\(\*?([^)]+)\.(\w+)\)\.(\w+)$", full)
+                if mm:
+                    ipath, fn = mm.group(1), ("(*" if full.startswith("(*") else "(") + mm.group(2) + ")." + mm.group(3)
+                else:
+                    ipath, fn = full.rsplit(".", 1)
+                if not ipath.startswith("github.com/pdfcpu/pdfcpu"):
+                    continue  # stubs of non-repo functions cannot be injected natively
+                d = os.path.join(REPO, ipath[len("github.com/pdfcpu/pdfcpu"):].lstrip("/"))
+                specs.append(dict(dir=d, func=fn, stub=stub, harness=m.group(2)))
+    if specs:
+        sp = os.path.join(workdir, "stubs_" + hashlib.md5(pkg_rel.encode()).hexdigest()[:8] + ".json")
+        json.dump(specs, open(sp, "w"))
+        r = subprocess.run([GOSYM, "-patchstubs", sp, "-patchout", workdir], capture_output=True, text=True, env=goenv())
+        if r.returncode != 0:
+            print("stub patching failed:\n" + r.stdout + r.stderr)
+        else:
+            for orig, patched in json.loads(r.stdout)["replace"].items():
+                repl[orig] = patched
     test = ["package " + pkgname, "", "import (", '\t"testing"', "", '\t"github.com/pdfcpu/pdfcpu/internal/zzverif/vp"', ")", "",
             "func TestVerifReplay(t *testing.T) {", "\tvp.Main(t, map[string]func(){"]
     for n in names:
